@@ -7,7 +7,7 @@ CONSTANTS
   Prod = {1, 2}
   Cons = {3, 4}
   Prog <- Prog_pp
-  StartSet = {0, 3}
+  StartSet = {0, 6}
   Bug = "none"
 INVARIANTS ExactlyOnce FifoLinearizable PerProducerOrder CapacityBound NoTornSlot
 
